@@ -109,9 +109,29 @@ func BuildBody(op *ClientOp) ([]byte, string) {
 		if b.Tools > 0 {
 			var tools []any
 			for i := 0; i < b.Tools; i++ {
-				tools = append(tools, map[string]any{"name": fmt.Sprintf("tool_%d", i), "description": "t", "input_schema": map[string]any{"type": "object", "properties": map[string]any{"x": map[string]any{"type": "string"}}}})
+				if !b.ToolVariety {
+					tools = append(tools, map[string]any{"name": fmt.Sprintf("tool_%d", i), "description": "t", "input_schema": map[string]any{"type": "object", "properties": map[string]any{"x": map[string]any{"type": "string"}}}})
+					continue
+				}
+				// optional keys come and go from request to request, and every value names its request
+				h := strHash(nonce) + uint64(i)*0x9E3779B97F4A7C15
+				schema := map[string]any{"type": "object", "properties": map[string]any{"x": map[string]any{"type": "string", "description": "arg of NONCE<" + nonce + ">"}}}
+				if h&1 != 0 {
+					schema["required"] = []string{"x"}
+				}
+				if h&2 != 0 {
+					schema["additionalProperties"] = false
+				}
+				tool := map[string]any{"name": fmt.Sprintf("tool_%d", i), "input_schema": schema}
+				if h&4 != 0 {
+					tool["description"] = "tool of NONCE<" + nonce + ">"
+				}
+				tools = append(tools, tool)
 			}
 			m["tools"] = tools
+		}
+		if b.ToolVariety && strHash(nonce)&8 != 0 {
+			m["stop_sequences"] = []string{"STOP-A NONCE<" + nonce + ">", "STOP-B NONCE<" + nonce + ">"}[:1+int(strHash(nonce)>>4&1)]
 		}
 		js, _ := json.Marshal(m)
 		return js, ctype
